@@ -198,3 +198,33 @@ Proof.
     apply Z.eqb_neq in E. exact (lowest_terms_normal n d u v E L).
   - intros u v H. exact (ratio_m_normalised n d u v Hn Hd H).
 Qed.
+
+(** * ratio_equal decides equality of the rational numbers: normal forms are unique *)
+Lemma normalised_unique : forall n1 d1 n2 d2, normalised n1 d1 -> normalised n2 d2 ->
+  n1 * d2 = n2 * d1 -> n1 = n2 /\ d1 = d2.
+Proof.
+  intros n1 d1 n2 d2 (Hd1 & _ & C1) (Hd2 & _ & C2) E.
+  assert (D12 : (d1 | d2)).
+  { apply Gauss with (b := n1).
+    - exists n2. exact E.
+    - apply rel_prime_sym. apply Zgcd_1_rel_prime. exact C1. }
+  assert (D21 : (d2 | d1)).
+  { apply Gauss with (b := n2).
+    - exists n1. symmetry. exact E.
+    - apply rel_prime_sym. apply Zgcd_1_rel_prime. exact C2. }
+  assert (Ed : d1 = d2).
+  { apply Z.divide_antisym_nonneg; try lia; assumption. }
+  split; [|exact Ed]. subst d2. apply Z.mul_cancel_r with (p := d1); [lia | exact E].
+Qed.
+
+Theorem ratio_equal_semantic : forall n1 d1 n2 d2, normalised n1 d1 -> normalised n2 d2 ->
+  ratio_equal_m n1 d1 n2 d2 = Some (n1 * d2 =? n2 * d1).
+Proof.
+  intros n1 d1 n2 d2 H1 H2; unfold ratio_equal_m. f_equal.
+  destruct (n1 * d2 =? n2 * d1) eqn:E.
+  - apply Z.eqb_eq in E. destruct (normalised_unique _ _ _ _ H1 H2 E) as [-> ->].
+    rewrite !Z.eqb_refl. reflexivity.
+  - apply Z.eqb_neq in E.
+    destruct (n1 =? n2) eqn:En; [|reflexivity]. destruct (d1 =? d2) eqn:Ed; [|reflexivity].
+    apply Z.eqb_eq in En, Ed. subst. contradiction E. reflexivity.
+Qed.
